@@ -1697,6 +1697,15 @@ func stepCandidate(r *raft, m *pb.Message) error {
 		r.becomeFollower(m.GetTerm(), m.GetFrom()) // always m.Term == r.Term
 		r.handleSnapshot(m)
 	case myVoteRespType:
+		if r.state == StatePreCandidate && !m.GetReject() && m.GetTerm() != r.Term+1 {
+			// A granted pre-vote carries the term it was requested for. A grant
+			// for an earlier pre-campaign (one this node already turned into a
+			// real candidacy at its current term) says nothing about the term
+			// we are pre-campaigning for now, so it must not count towards it.
+			r.logger.Infof("%x [term: %d] ignored a stale %s grant from %x for term %d",
+				r.id, r.Term, m.GetType(), m.GetFrom(), m.GetTerm())
+			return nil
+		}
 		gr, rj, res := r.poll(m.GetFrom(), m.GetType(), !m.GetReject())
 		r.logger.Infof("%x has received %d %s votes and %d vote rejections", r.id, gr, m.GetType(), rj)
 		switch res {
